@@ -143,6 +143,52 @@ Section Generic.
   Definition scan_dict (copies : bool) (md : mode) (m0 : M) (rows : list (Lbl * Row)) : list (Lbl * Out) :=
     let hes := run copies md m0 rows in snd (view_all m0 (fst hes) (dict_of (snd hes))).
 
+  (** the same containers behind an up-front test of the index ([_require_unique_index]): a table
+      with equal labels is REFUSED (ValueError, [None]) when the entry point makes the test *)
+  Fixpoint has_dup (ls : list Lbl) : bool :=
+    match ls with
+    | [] => false
+    | l :: t => existsb (lbl_eqb l) t || has_dup t
+    end.
+  Definition scan_dict_checked (refuse : bool) (copies : bool) (md : mode) (m0 : M) (rows : list (Lbl * Row))
+    : option (list (Lbl * Out)) :=
+    if refuse && has_dup (map fst rows) then None else Some (scan_dict copies md m0 rows).
+
+  (** ---- any partition of the rows into worker batches ----
+      The pool is handed [batches] instead of single rows (pebble's [chunksize > 1], or a hand-made
+      partition as in "one batch per worker process").  A batch runs in ONE worker process: its rows
+      go one after the other through the SAME unpickled partial, i.e. sequentially on that process'
+      private heap ([run_seq] from a fresh [m0]); the whole batch result travels back as ONE
+      message, so objects shared inside a batch stay shared after unpickling.  The parent appends
+      each message's heap to its own ([shift] relocates the addresses) and concatenates the batch
+      results in the order the ordered map hands them out. *)
+  Definition bmsg := (heap * list entry)%type.
+  Definition remote_batch (copies : bool) (m0 : M) (b : list (Lbl * Row)) : bmsg := run_seq copies m0 [m0] 0 b.
+  Definition shift (k : nat) (e : entry) : entry := mkE (e_lbl e) (e_sim e) (k + e_addr e).
+  Fixpoint import_b (h : heap) (ms : list bmsg) : heap * list entry :=
+    match ms with
+    | [] => (h, [])
+    | hes :: t =>
+        let r := import_b (h ++ fst hes) t in
+        (fst r, map (shift (length h)) (snd hes) ++ snd r)
+    end.
+  Definition run_batched (copies : bool) (sched : schedule) (m0 : M) (batches : list (list (Lbl * Row))) : heap * list entry :=
+    import_b [m0] (collect (pool_run sched (remote_batch copies m0) batches)).
+  Definition scan_list_batched (copies : bool) (sched : schedule) (m0 : M) (batches : list (list (Lbl * Row))) : list (Lbl * Out) :=
+    let hes := run_batched copies sched m0 batches in snd (view_all m0 (fst hes) (snd hes)).
+
+  (** dealing the rows round-robin into [n] batches ([inputs[i::n] for i in range(n)]) *)
+  Fixpoint every_nth {A} (n k : nat) (l : list A) : list A :=   (* elements at positions = k, counting down from k, period S n *)
+    match l with
+    | [] => []
+    | x :: t => match k with
+                | O => x :: every_nth n n t
+                | S k' => every_nth n k' t
+                end
+    end.
+  Definition deal {A} (n : nat) (l : list A) : list (list A) :=
+    map (fun i => every_nth (pred n) i l) (seq 0 n).
+
   (** THE SPECIFICATION: a separate run on a fresh copy of the model with exactly that row *)
   Definition independent (m0 : M) (r : Row) : Out :=
     let sm := work (apply_row r m0) in fst (view (fst sm) (snd sm)).
